@@ -6,15 +6,18 @@
      N, comps        cells; stored permittivity components (1 isotropic, 3 diagonal, 9 full tensor)
      base            integer permittivity tensor (9 entries) of every cell of the placed scene, as the harness
                      built it (volume / slab materials); event 1 checks the placed arrays against it
-     dev             [lo, hi, vox, kind, mats]  mats = device material tensors in the order the implementation
-                     documents (ascending first permittivity component; checked here)
+     devs            the devices in the order of objects.devices, each [lo, hi, vox, kind, mats]; mats = device
+                     material tensors in the order the implementation documents (ascending first permittivity
+                     component; checked here).  Cells covered by two devices are compared with "devices written in
+                     list order" as detail only (drift) - the property does not say who wins there.
      events          1: arrays after place_objects (p = <<>>);  k > 1: after the (k-1)-th apply_params.
-                     p   = what the device's transform chain produced per design voxel for that parameter set
+                     p   = per device, what its transform chain produced per design voxel for that parameter set
                            (doubled value 0|1|2 for continuous / etched, material index for discrete)
                      inv = inverse-permittivity tensor of every cell, 9 integers in units of 1/S
                      dc  = dispersive coefficients (c1, c2, c3 flattened) of every cell, units 1/S  (disp = 1)
      fresh           inv (and dc) after applying ONLY the last parameter set to a freshly placed scene
-     rdev            largest rounding deviation of any sent value, in 1/1000 of a unit
+     rd (per event)  rounding deviation of every cell's sent values, in 1/1000 of a unit (must be 0 where the
+                     result is claimed exact)
    Verdict clauses (first failing one is kept, all events are consumed):
      device   : every device cell is the inverse of the documented blend / of the selected material
                 (inv * blend = identity within tol units; exact, tol = 0, for discrete devices without full
@@ -32,29 +35,46 @@ tvars == << ci, l, bad >>
 C == Cases[ci]
 Note(cl) == IF bad = "" THEN cl ELSE bad
 
+DevOK(c, d) ==
+    /\ d.kind \in {"continuous", "etched", "discrete"}
+    /\ d.lo >= 0 /\ d.hi <= c.N /\ d.lo < d.hi /\ (d.hi - d.lo) % d.vox = 0
+    /\ Len(d.mats) = (CASE d.kind = "continuous" -> 2 [] d.kind = "etched" -> 1 [] OTHER -> Len(d.mats))
+    /\ \A k \in 1..(Len(d.mats) - 1) : d.mats[k][1] <= d.mats[k + 1][1]
 WellFormed(c) ==
     /\ c.N \in 1..12 /\ c.comps \in {1, 3, 9} /\ Len(c.base) = c.N /\ c.S = 100000000 /\ c.tol \in 0..64
-    /\ c.dev.kind \in {"continuous", "etched", "discrete"}
-    /\ c.dev.lo >= 0 /\ c.dev.hi <= c.N /\ c.dev.lo < c.dev.hi /\ (c.dev.hi - c.dev.lo) % c.dev.vox = 0
-    /\ Len(c.dev.mats) = (CASE c.dev.kind = "continuous" -> 2 [] c.dev.kind = "etched" -> 1 [] OTHER -> Len(c.dev.mats))
-    /\ \A k \in 1..(Len(c.dev.mats) - 1) : c.dev.mats[k][1] <= c.dev.mats[k + 1][1]
+    /\ Len(c.devs) \in 1..3 /\ \A i \in 1..Len(c.devs) : DevOK(c, c.devs[i])
     /\ Len(c.events) >= 2 /\ Len(c.events[1].p) = 0
     /\ \A k \in 1..Len(c.events) : Len(c.events[k].inv) = c.N
-    /\ \A k \in 2..Len(c.events) : /\ Len(c.events[k].p) = D!NVoxels(c.dev)
-                                   /\ \A v \in 1..Len(c.events[k].p) :
-                                        c.events[k].p[v] \in (IF c.dev.kind = "discrete" THEN 0..(Len(c.dev.mats) - 1) ELSE 0..2)
+    /\ \A k \in 2..Len(c.events) :
+          /\ Len(c.events[k].p) = Len(c.devs)
+          /\ \A i \in 1..Len(c.devs) :
+                /\ Len(c.events[k].p[i]) = D!NVoxels(c.devs[i])
+                /\ \A v \in 1..Len(c.events[k].p[i]) :
+                      c.events[k].p[i][v] \in (IF c.devs[i].kind = "discrete" THEN 0..(Len(c.devs[i].mats) - 1) ELSE 0..2)
     /\ Len(c.fresh.inv) = c.N
 
 Malformed == { "malformed: record shape", "malformed: placed scene differs from the harness's description of it" }
 
 TInit == ci = 1 /\ l = 1 /\ bad = "" /\ TLCSet(1, << >>)
 
+\* first failing clause for the cells of device i at event e (cells covered by this device only)
+DeviceClause(c, e, i) ==
+    LET d == c.devs[i]
+        exact == d.kind = "discrete" /\ c.comps # 9
+        tol == IF exact THEN 0 ELSE c.tol
+        exp == D!WriteDevice([ k \in 1..c.N |-> D!Dbl(c.base[k]) ], d, e.p[i])
+        own == { k \in 1..c.N : D!InDevice(d, k - 1) /\ D!InOneDevice(c.devs, k - 1) }
+    IN  IF \E k \in own : ~D!IsInverseOf(e.inv[k], exp[k], c.S, tol)
+        THEN (IF d.kind = "discrete" THEN "device: a cell does not carry the inverse permittivity of the selected material"
+              ELSE "device: a cell is not the inverse of the linear blend of the permittivities")
+        ELSE IF exact /\ \E k \in own : e.rd[k] # 0 THEN "device: discrete inverse permittivity is not exact"
+        ELSE IF c.disp = 1 /\ d.kind = "discrete" /\ \E k \in own : e.dc[k] # c.dtable[e.p[i][D!VoxelOf(d, k - 1)] + 1]
+        THEN "device: a cell does not carry the dispersion coefficients of the selected material"
+        ELSE ""
+
 Event ==
     LET c == C
         e == c.events[l]
-        dev == c.dev
-        exact == dev.kind = "discrete" /\ c.comps # 9
-        tol == IF exact THEN 0 ELSE c.tol
     IN
     /\ bad' =
          IF l = 1 THEN
@@ -63,19 +83,18 @@ Event ==
                   THEN Note("malformed: placed scene differs from the harness's description of it")
              ELSE bad)
          ELSE IF bad \in Malformed THEN bad                   \* malformed record: nothing else is meaningful
-         ELSE LET exp == D!After(c.base, dev, e.p)
-                  e1  == c.events[1]
-              IN  IF \E k \in 1..c.N : D!InDevice(dev, k - 1) /\ ~D!IsInverseOf(e.inv[k], exp[k], c.S, tol)
-                  THEN Note(IF dev.kind = "discrete" THEN "device: a cell does not carry the inverse permittivity of the selected material"
-                            ELSE "device: a cell is not the inverse of the linear blend of the permittivities")
-                  ELSE IF exact /\ c.rdev # 0 THEN Note("device: discrete inverse permittivity is not exact")
-                  ELSE IF c.disp = 1 /\ dev.kind = "discrete"
-                          /\ \E k \in 1..c.N : D!InDevice(dev, k - 1) /\ e.dc[k] # c.dtable[e.p[D!VoxelOf(dev, k - 1)] + 1]
-                  THEN Note("device: a cell does not carry the dispersion coefficients of the selected material")
-                  ELSE IF \E k \in 1..c.N : ~D!InDevice(dev, k - 1) /\ (e.inv[k] # e1.inv[k] \/ (c.disp = 1 /\ e.dc[k] # e1.dc[k]))
-                  THEN Note("outside: a cell outside the device was changed")
+         ELSE LET e1   == c.events[1]
+                  dcl  == [ i \in 1..Len(c.devs) |-> DeviceClause(c, e, i) ]
+                  seqm == D!After(c.base, c.devs, e.p)          \* devices written in list order
+              IN  IF \E i \in 1..Len(c.devs) : dcl[i] # ""
+                  THEN Note(dcl[CHOOSE i \in 1..Len(c.devs) : dcl[i] # "" /\ \A j \in 1..(i - 1) : dcl[j] = ""])
+                  ELSE IF \E k \in 1..c.N : ~D!InAnyDevice(c.devs, k - 1) /\ (e.inv[k] # e1.inv[k] \/ (c.disp = 1 /\ e.dc[k] # e1.dc[k]))
+                  THEN Note("outside: a cell outside the devices was changed")
                   ELSE IF l = Len(c.events) /\ (e.inv # c.fresh.inv \/ (c.disp = 1 /\ e.dc # c.fresh.dc))
                   THEN Note("history: arrays after the sequence differ from applying only the last parameter set")
+                  ELSE IF \E k \in 1..c.N : D!InAnyDevice(c.devs, k - 1) /\ ~D!InOneDevice(c.devs, k - 1)
+                                              /\ ~D!IsInverseOf(e.inv[k], seqm[k], c.S, c.tol)
+                  THEN Note("drift: a cell shared by two devices differs from writing the devices in list order")
                   ELSE bad
     /\ l' = l + 1 /\ ci' = ci
 
